@@ -35,7 +35,7 @@ ASSUMPTIONS = [
     'Sample(N): at most N rows, strictly increasing source frames, first row is frame 0 (which frames a sample picks is C15)',
     'channel names are matched exactly as the format stores them (BIT/LIS mnemonics are 4 characters, blank padded)',
 ]
-PROBES = ['long_log_gt16384_rows', 'negative_step', 'x_not_resolved_by_format', 'empty_selection_skipped', 'step_not_dividing', 'sample_lt_frames', 'channel_subset', 'subset_unknown_name', 'multi_valued_reduced', 'value_wider_than_field', 'several_log_passes',
+PROBES = ['path_held_other_bytes_before', 'long_log_gt16384_rows', 'negative_step', 'x_not_resolved_by_format', 'empty_selection_skipped', 'step_not_dividing', 'sample_lt_frames', 'channel_subset', 'subset_unknown_name', 'multi_valued_reduced', 'value_wider_than_field', 'several_log_passes',
           'indirect_x', 'conv_bit', 'conv_rp66v1', 'conv_lis', 'single_frame_selected', 'subset_includes_x']
 CONVERTERS_ENABLED = ['bit', 'rp66v1', 'lis']
 
@@ -78,7 +78,8 @@ def generate(seed, tier):
            'width': rng.pick([16, 16, 12, 8, 20]), 'fmt': rng.pick(['.3f', '.3f', '.1f', '.6f', '.0f'])}
     ext = rng.pick(batch.EXT[world])
     return {'world': 'convert', 'converter': conv, 'recurse': False, 'config': cfg, 'files': [{'path': rng.pick(['f', 'f', 'well.v2', 'a_b', '.f', 'x y']) + ext, 'gen': gen}],
-            'runs': [{'mode': 'alone', 'clock': {'base': 0.0}}]}
+            'runs': [dict({'mode': 'alone', 'clock': {'base': 0.0}},
+                          **({'stale_first': [['overwrite', rng.pick([0, 0, 4, 9, 80]), rng.rbytes(rng.pick([1, 4, 16])).hex()]]} if rng.chance(0.15) else {}))]}
 
 
 def channel_names(conv, info):
@@ -204,6 +205,8 @@ def _execute(scenario, res, br):
     res.probe('conv_' + conv)
     r = br.run('alone', scenario['runs'][0], alone=rel)
     res.op('convert')
+    if r.get('stale_first_done'):
+        res.probe('path_held_other_bytes_before')
     res.sim_time = r.get('sim_time', 0.0)
     facts0 = {'converter': conv, 'slice_kind': 'none' if cfg['slice'] is None else (cfg['slice'][0] if cfg['slice'][0] != 'slice' or (cfg['slice'][3] or 1) > 0 else 'slice-descending'), 'subset': bool(cfg['channels']), 'reduce': cfg['reduce']}
     res.ev('run', r['status'], sorted(r['results'].items()), sorted((p, seeds.digest(t)) for p, t in r['tree'].items()))
